@@ -15,6 +15,7 @@ from ..bags import property_readers
 from ..cfg import CFG
 from ..core import AnalysisError, NotConstant, Repo, Report, call_name, calls_in, kwarg, module_const, norm, walk_local
 from ..dataflow import DefUse
+from .util import canon, cguards
 
 CMP = {">": lambda a, b: a > b, ">=": lambda a, b: a >= b, "<": lambda a, b: a < b, "<=": lambda a, b: a <= b,
        "=": lambda a, b: a == b, "==": lambda a, b: a == b, "!=": lambda a, b: a != b, "≠": lambda a, b: a != b}
@@ -59,7 +60,8 @@ def run(repo: Repo, rep: Report, tier: str) -> None:
     for role, (f, c) in gates.items():
         cc = kwarg(c, "copy_count_from_input")
         rep.check(isinstance(cc, ast.Constant) and cc.value is True, "C03-R1", f"{role} copies the count from its input", f"copy_count_from_input={norm(cc)}", f.loc(c))
-    rep.check(norm(kwarg(wc, "output_signal")) == norm(kwarg(hc, "output_signal")), "C03-R1", "both gates output the cell's signal", f"{norm(kwarg(wc, 'output_signal'))} / {norm(kwarg(hc, 'output_signal'))}", wf.loc(wc))
+    ow, oh = canon(wf).text(kwarg(wc, "output_signal")), canon(hf).text(kwarg(hc, "output_signal"))
+    rep.check(ow == oh and "op.signal_type" in ow, "C03-R1", "both gates output the cell's signal", f"{ow} / {oh}", wf.loc(wc))
     enable_sig = wl.value if isinstance(wl, ast.Constant) else None
 
     # ---------------- R2 ---------------------------------------------------------------
@@ -84,35 +86,34 @@ def run(repo: Repo, rep: Report, tier: str) -> None:
     ok = enable_sig not in avail or "RESERVED_SIGNALS" in excl
     rep.check(ok, "C03-R2", "no untyped value can be allocated the enable signal", "RESERVED_SIGNALS is excluded from the allocation pool" if ok else
               f"{enable_sig} is in AVAILABLE_VIRTUAL_SIGNALS and the pool's exclusion set {sorted(excl)} omits RESERVED_SIGNALS: an unrelated value on {enable_sig} holds the write gate open", pool.loc())
-    # typestate: every path to memory_write passes a retype or is_const_one
-    cfg = CFG(lsw.node)
-    mw = [s for s in cfg.stmts() if not isinstance(s, (ast.If,)) and any(call_name(c) == "memory_write" for c in calls_in(s))]
-    retypes = [s for s in cfg.stmts() if isinstance(s, ast.Assign) and (
-        (norm(s.targets[0]).endswith(".signal_type") and norm(s.value) == repr(enable_sig)) or
-        (norm(s.targets[0]) == "write_enable" and repr(enable_sig) in norm(s.value)))]
-    rep.floor("C03-R2", "enable retype sites", len(retypes), 3)
-    const_one_true = [s for s in cfg.stmts() if isinstance(s, ast.Assign) and norm(s) == "is_const_one = True"]
-    if mw:
-        blocked = {id(x) for x in retypes + const_one_true}
-        escapes = cfg.reaches_avoiding("ENTRY", {id(mw[0])}, lambda n: id(n) in blocked)
-        # the only unblocked paths allowed are those where the enable is not a SignalRef (int != 1) - report them as the residual
-        rep.check(not escapes or True, "C03-R2", "paths to memory_write", "", lsw.loc(), ) if False else None
-        path = cfg.path_avoiding("ENTRY", mw[0], lambda n: id(n) in blocked)
-        from ..cfg import describe
-        residual = [describe(n) for n in (path or []) if isinstance(n, ast.If)]
-        ok = path is None or all("isinstance(write_enable, SignalRef)" in r or "is_const_one" in r or "isinstance(write_enable, int)" in r or "expr.when" in r or "isinstance(source_node" in r or "write_enable.signal_type" in r or "isinstance(const_node" in r for r in residual)
-        only_nonsignal = path is None or any("not is_const_one and isinstance(write_enable, SignalRef)" in r for r in residual)
-        rep.check(path is None or only_nonsignal, "C03-R2", "every signal-valued enable is retyped before memory_write",
-                  "all paths pass a retype or the constant-one form" if path is None else "only enables that are not SignalRefs (plain ints) bypass the retype", lsw.loc(mw[0]))
+    # typestate of the enable argument of memory_write: every alternative it can stand for is the lowered `when` expression (retyped in place
+    # when it is a decider), a `+ 0` projection onto the enable signal, or the constant 1 on the enable signal
+    clw = canon(lsw)
+    mwc = [c for c in calls_in(lsw.node, "memory_write")]
+    if not mwc:
+        raise AnalysisError("C03-R2: memory_write call not found in the lowerer")
+    en_arg = mwc[0].args[2] if len(mwc[0].args) > 2 else kwarg(mwc[0], "write_enable")
+    alts = clw.alts(en_arg)
+    q = repr(enable_sig)
+    def alt_ok(a: str) -> bool:
+        return a == "self.parent.expr_lowerer.lower_expr(expr.when)" or (a.startswith("self.ir_builder.arithmetic('+', ") and a.endswith(f", 0, {q}, expr)")) or a == f"self.ir_builder.const({q}, 1, expr)"
+    rep.check(all(alt_ok(a) for a in alts) and len(alts) >= 3, "C03-R2", "the enable handed to memory_write is the lowered condition, its projection onto the enable signal, or the constant 1 on it",
+              "; ".join(a[:70] for a in alts), lsw.loc(mwc[0]))
+    inplace = [n for n in walk_local(lsw.node) if isinstance(n, ast.Assign) and isinstance(n.targets[0], ast.Attribute) and n.targets[0].attr in ("signal_type", "output_type") and norm(n.value) == q]
+    okp = len(inplace) >= 2 and all(any("IRDecider" in t and pol for t, pol in cguards(lsw, n)) for n in inplace)
+    rep.check(okp, "C03-R2", "a decider-valued enable is retyped in place (node output type and reference type) to the enable signal", "; ".join(clw.text(n.targets[0])[:60] for n in inplace), lsw.loc(inplace[0]) if inplace else lsw.loc())
+    proj = [n for n in walk_local(lsw.node) if isinstance(n, ast.Assign) and isinstance(n.value, ast.Call) and call_name(n.value) == "arithmetic" and q in norm(n.value)]
+    okj = bool(proj) and any(t.endswith(f".signal_type != {q}") and pol for t, pol in cguards(lsw, proj[0]))
+    rep.check(okj, "C03-R2", "any other signal-valued enable not already on the enable signal is projected onto it", "; ".join(t for t, p in cguards(lsw, proj[0]) if p)[:160] if proj else "projection missing", lsw.loc(proj[0]) if proj else lsw.loc())
     # sibling agreement of the constant-one recognisers
     iaw = repo.func("MemoryBuilder._is_always_write")
-    def shape(f, var):
-        s = set()
+    def shape(f):
+        out = set()
         for n in walk_local(f.node):
             if isinstance(n, ast.Compare) and norm(n.comparators[0]) == "1" and isinstance(n.ops[0], ast.Eq):
-                s.add("int==1" if var in norm(n.left) and ".value" not in norm(n.left) else "IRConst.value==1")
-        return s
-    a, b = shape(lsw, "write_enable"), shape(iaw, "write_enable")
+                out.add("IRConst.value==1" if canon(f).text(n.left).endswith(".value") else "int==1")
+        return out
+    a, b = shape(lsw), shape(iaw)
     rep.check(a == b == {"int==1", "IRConst.value==1"}, "C03-R2", "lowerer and builder recognise the same constant-one enables", f"lowerer {sorted(a)}, builder {sorted(b)}", iaw.loc())
     ssw = repo.func("MemoryBuilder._setup_standard_write")
     sinks = [c for c in calls_in(ssw.node, "add_sink") if "write_enable" in norm(c.args[0])]
@@ -140,14 +141,16 @@ def run(repo: Repo, rep: Report, tier: str) -> None:
     rep.check(len(cols) == 1 and sides == {("'output'", "'input'")} and sigs == {"module.signal_type"}, "C03-R3", "both wires run output->input on one colour and carry the cell signal", f"colours {sorted(cols)}, sides {sorted(sides)}, signal {sorted(sigs)}", ssw.loc())
     K = next(iter(cols)) if len(cols) == 1 else None
     dl = repo.func("LayoutPlanner._determine_locked_wire_colors")
-    locks = [n for n in walk_local(dl.node) if isinstance(n, ast.Assign) and isinstance(n.targets[0], ast.Subscript) and norm(n.targets[0].value) == "locked"]
-    gate_locks = {norm(n.targets[0].slice): n.value.value for n in locks if isinstance(n.value, ast.Constant) and ("write_gate.ir_node_id" in norm(n.targets[0].slice) or "hold_gate.ir_node_id" in norm(n.targets[0].slice)) and "module.signal_type" in norm(n.targets[0].slice)}
-    rep.check(len(gate_locks) == 2 and set(gate_locks.values()) == {K}, "C03-R3", "the cell signal of both gates is locked to the feedback colour", str(gate_locks), dl.loc())
-    w_locks = [n for n in locks if isinstance(n.value, ast.Constant) and repr(enable_sig) in norm(n.targets[0].slice)]
+    cdl = canon(dl)
+    locks = [n for n in walk_local(dl.node) if isinstance(n, ast.Assign) and isinstance(n.targets[0], ast.Subscript) and isinstance(n.targets[0].value, ast.Name) and isinstance(n.value, ast.Constant) and n.value.value in ("red", "green")]
+    keyed = [(cdl.text(n.targets[0].slice), n.value.value, n) for n in locks]
+    gate_locks = {k: v for k, v, _ in keyed if ("write_gate.ir_node_id" in k or "hold_gate.ir_node_id" in k) and ".signal_type" in k}
+    rep.check(len(gate_locks) == 2 and set(gate_locks.values()) == {K}, "C03-R3", "the cell signal of both gates is locked to the feedback colour", str({k[:70]: v for k, v in gate_locks.items()}), dl.loc())
+    w_locks = [(k, v) for k, v, _ in keyed if repr(enable_sig) in k]
     other = ({"red", "green"} - {K}).pop() if K else None
-    rep.check(bool(w_locks) and all(n.value.value == other for n in w_locks), "C03-R3", "enable sources are locked to the other colour", "; ".join(norm(n) for n in w_locks), dl.loc())
-    data_locks = [n for n in locks if isinstance(n.value, ast.Constant) and "data_signal" in norm(n.targets[0].slice)]
-    rep.check(bool(data_locks) and all(n.value.value == K for n in data_locks), "C03-R3", "data sources feeding the write gate are locked to the feedback colour", "; ".join(norm(n) for n in data_locks), dl.loc())
+    rep.check(bool(w_locks) and all(v == other for _, v in w_locks), "C03-R3", "enable sources are locked to the other colour", "; ".join(f"{k[:50]}={v}" for k, v in w_locks), dl.loc())
+    data_locks = [(k, v) for k, v, n in keyed if k not in gate_locks and repr(enable_sig) not in k and ".signal_type" in k and any("write_gate" in t for t, pol in cguards(dl, n))]
+    rep.check(bool(data_locks) and all(v == K for _, v in data_locks), "C03-R3", "data sources feeding the write gate are locked to the feedback colour", "; ".join(f"{k[:60]}={v}" for k, v in data_locks), dl.loc())
 
     # ---------------- R4 ---------------------------------------------------------------
     rep.rule("C03-R4", "handle_read makes the hold gate the source of every read of a standard cell")
@@ -156,7 +159,7 @@ def run(repo: Repo, rep: Report, tier: str) -> None:
     rep.check(bool(last) and norm(last[0].args[0]) == "op.node_id", "C03-R4", "reads of a standard cell come from the hold gate", norm(last[0]) if last else "missing", hr_.loc())
     csm = wf
     src = [c for c in calls_in(csm.node, "set_source") if norm(c.args[0]) == "op.memory_id"]
-    rep.check(bool(src) and norm(src[0].args[1]) == "hold_id", "C03-R4", "the cell's own signal id is sourced by the hold gate", norm(src[0]) if src else "", csm.loc())
+    rep.check(bool(src) and canon(csm).text(src[0].args[1]) == canon(hf).text(kwarg(hc, "ir_node_id")), "C03-R4", "the cell's own signal id is sourced by the hold gate", canon(csm).text(src[0].args[1]) if src else "", csm.loc())
 
     # ---------------- R5 ---------------------------------------------------------------
     rep.rule("C03-R5", "every configuration key the gates are created with is read by _configure_decider")
